@@ -3,7 +3,7 @@
 from __future__ import annotations
 
 # Third Party Imports
-from numpy import empty_like
+from numpy import concatenate, empty_like
 from scipy.linalg import norm
 
 # Local Imports
@@ -51,6 +51,13 @@ class TwoBody(Celestial):
 
             # Save state derivative for this state vector
             derivative[jj : jj + half : step] = state[jj + half :: step]
-            derivative[jj + half :: step] = -1.0 * Earth.mu / (r_norm**3.0) * r_vector
+            acceleration = -1.0 * Earth.mu / (r_norm**3.0) * r_vector
+            # Add thrust acceleration if applicable
+            if self.finite_thrust:
+                acceleration = (
+                    acceleration
+                    + self.finite_thrust(concatenate((r_vector, state[jj + half :: step])))[:3]
+                )
+            derivative[jj + half :: step] = acceleration
 
         return derivative
